@@ -683,9 +683,13 @@ func (h *c17H) drawTarget(t *rapid.T, class routetable.RouteClass, iface string)
 			GW: ip.FromString(rapid.SampledFrom([]string{"192.168.0.2", "192.168.0.3"}).Draw(t, "gw")), Protocol: h.cfg.exclusiveProto()}
 	case routetable.RouteClassBlackholeVXLAN:
 		c := rapid.SampledFrom(c17BlockCIDRs).Draw(t, "cidr")
-		tg = routetable.Target{RouteKey: routetable.RouteKey{CIDR: ip.MustParseCIDROrIP(c)}, Type: routetable.TargetTypeBlackhole, Protocol: h.cfg.exclusiveProto()}
+		// Every no-interface target type the route table supports.
+		typ := rapid.SampledFrom([]routetable.TargetType{routetable.TargetTypeBlackhole, routetable.TargetTypeBlackhole,
+			routetable.TargetTypeUnreachable, routetable.TargetTypeProhibit, routetable.TargetTypeThrow}).Draw(t, "specialType")
+		tg = routetable.Target{RouteKey: routetable.RouteKey{CIDR: ip.MustParseCIDROrIP(c)}, Type: typ, Protocol: h.cfg.exclusiveProto()}
+		h.classes["desired-noiface-"+string(typ)] = true
 	}
-	if rapid.IntRange(0, 5).Draw(t, "ownSrc") == 0 && tg.Type != routetable.TargetTypeBlackhole {
+	if rapid.IntRange(0, 5).Draw(t, "ownSrc") == 0 && class != routetable.RouteClassBlackholeVXLAN {
 		tg.Src = ip.FromString("10.0.0.254")
 	}
 	return tg
@@ -846,6 +850,11 @@ func TestVerifC17RouteSync(t *testing.T) {
 			{"tunl0", netlink.Route{Dst: c17MustCIDR("10.0.3.0/26"), Gw: net.ParseIP("192.168.0.3"), Protocol: c17ProtoBIRD, Type: unix.RTN_UNICAST, Flags: unix.RTNH_F_ONLINK}, "start-bird-ipip-route"},
 			{"", netlink.Route{Dst: c17MustCIDR("10.0.9.0/26"), Protocol: c17ProtoBIRD, Type: unix.RTN_BLACKHOLE}, "start-foreign-blackhole"},
 			{"", netlink.Route{Dst: c17MustCIDR("10.0.8.0/26"), Protocol: 80, Type: unix.RTN_BLACKHOLE}, "start-blackhole-proto80"},
+			{"", netlink.Route{Dst: c17MustCIDR("10.0.8.64/26"), Protocol: 80, Type: unix.RTN_UNREACHABLE}, "start-stale-noiface-unreachable"},
+			{"", netlink.Route{Dst: c17MustCIDR("10.0.8.128/26"), Protocol: 80, Type: unix.RTN_PROHIBIT}, "start-stale-noiface-prohibit"},
+			{"", netlink.Route{Dst: c17MustCIDR("10.0.8.192/26"), Protocol: 80, Type: unix.RTN_THROW}, "start-stale-noiface-throw"},
+			{"", netlink.Route{Dst: c17MustCIDR("10.0.9.64/26"), Protocol: c17ProtoBIRD, Type: unix.RTN_UNREACHABLE}, "start-foreign-noiface-unreachable"},
+			{"", netlink.Route{Dst: c17MustCIDR("10.0.9.128/26"), Protocol: unix.RTPROT_STATIC, Type: unix.RTN_PROHIBIT}, "start-foreign-noiface-prohibit"},
 			{"cali1", netlink.Route{Dst: c17MustCIDR("10.0.0.9/32"), Protocol: unix.RTPROT_BOOT, Scope: netlink.SCOPE_LINK, Type: unix.RTN_UNICAST}, "start-workload-route-boot"},
 			{"cali2", netlink.Route{Dst: c17MustCIDR("10.0.0.8/32"), Protocol: unix.RTPROT_STATIC, Scope: netlink.SCOPE_LINK, Type: unix.RTN_UNICAST}, "start-workload-route-static"},
 			{"cali3", netlink.Route{Dst: c17MustCIDR("10.0.0.3/32"), Protocol: 80, Scope: netlink.SCOPE_LINK, Type: unix.RTN_UNICAST}, "start-workload-route-80"},
@@ -1077,6 +1086,13 @@ func TestVerifC17RouteSync(t *testing.T) {
 					sort.Strings(owned)
 					delete(h.dp.RouteKeyToRoute, rapid.SampledFrom(owned).Draw(t, "ownedKey"))
 					h.classes["ext-del-owned"] = true
+				case kind == 3 && rapid.Bool().Draw(t, "noIface"):
+					// a stale no-interface route carrying Felix's exclusive protocol (old Felix)
+					typ := rapid.SampledFrom([]int{unix.RTN_BLACKHOLE, unix.RTN_UNREACHABLE, unix.RTN_PROHIBIT, unix.RTN_THROW}).Draw(t, "type")
+					r := netlink.Route{Dst: c17MustCIDR(rapid.SampledFrom([]string{"10.0.8.64/26", "10.0.2.0/26", "10.0.3.0/26"}).Draw(t, "dst")),
+						Protocol: h.cfg.exclusiveProto(), Type: typ}
+					addRoute(r)
+					h.classes["ext-add-owned-noiface"] = true
 				default: // a stale route appears in Felix's ownership space (e.g. CNI plugin, old Felix)
 					name := rapid.SampledFrom([]string{"cali1", "cali2", c17VXLANIface}).Draw(t, "iface")
 					l, ok := h.dp.NameToLink[name]
@@ -1125,6 +1141,33 @@ func TestVerifC17RouteSync(t *testing.T) {
 				h.resyncRequested = true
 				h.classes["eintr-race-armed"] = true
 				h.ops = append(h.ops, "E")
+			},
+			"withdrawWithFullResync": func(t *rapid.T) {
+				// A route is withdrawn and the same Apply also does a full resync (e.g. the periodic one).
+				s := rapid.SampledFrom(c17Slots).Draw(t, "slot")
+				m := h.desired[s.Class][s.Iface]
+				if len(m) == 0 {
+					t.Skip("nothing to withdraw")
+				}
+				ks := make([]c17Key, 0, len(m))
+				for k := range m {
+					ks = append(ks, k)
+				}
+				sort.Slice(ks, func(i, j int) bool { return ks[i].String() < ks[j].String() })
+				k := rapid.SampledFrom(ks).Draw(t, "key")
+				h.rt.RouteRemove(s.Class, s.Iface, m[k].RouteKey)
+				delete(m, k)
+				if len(m) == 0 {
+					delete(h.desired[s.Class], s.Iface)
+				}
+				h.rt.QueueResync()
+				h.resyncRequested = true
+				h.classes["withdrawal-with-full-resync"] = true
+				if s.Iface == routetable.InterfaceNone {
+					h.classes["noiface-withdrawal-with-full-resync"] = true
+				}
+				h.ops = append(h.ops, "W")
+				_ = h.apply()
 			},
 			"queueResync": func(t *rapid.T) {
 				h.rt.QueueResync()
